@@ -327,3 +327,11 @@ CONTRACTS = CONTRACTS + [ThrottleFactory()]
 
 def extra_contracts():
     return mimic_variants("C15")
+
+
+class ThrottleShape(DecoratorShape):
+    file, func, name = "helpers/throttling.py", "throttle", "C15/throttling:throttle(decorator-shape)"
+    props = ("C15",)
+
+
+CONTRACTS = CONTRACTS + [ThrottleShape()]
